@@ -117,8 +117,16 @@ def canonical_iteration_forms(f):
   changed = [False]
 
   def append_loop(init, loop):
-    if not (isinstance(init, ast.Assign) and len(init.targets) == 1 and isinstance(init.targets[0], ast.Name)
-            and isinstance(init.value, ast.List) and not init.value.elts):
+    if not (isinstance(init, ast.Assign) and len(init.targets) == 1 and isinstance(init.targets[0], ast.Name)):
+      return None
+    v0 = init.value
+    if isinstance(v0, ast.List) and not v0.elts:
+      method = 'append'
+    elif isinstance(v0, ast.Call) and isinstance(v0.func, ast.Name) and v0.func.id == 'list' and not v0.args and not v0.keywords:
+      method = 'append'
+    elif isinstance(v0, ast.Call) and isinstance(v0.func, ast.Name) and v0.func.id == 'set' and not v0.args and not v0.keywords:
+      method = 'add'
+    else:
       return None
     x = init.targets[0].id
     if not (isinstance(loop, ast.For) and not loop.orelse and len(loop.body) == 1):
@@ -128,12 +136,18 @@ def canonical_iteration_forms(f):
       conds.append(inner.test)
       inner = inner.body[0]
     if not (isinstance(inner, ast.Expr) and isinstance(inner.value, ast.Call) and isinstance(inner.value.func, ast.Attribute)
-            and inner.value.func.attr == 'append' and isinstance(inner.value.func.value, ast.Name) and inner.value.func.value.id == x
+            and inner.value.func.attr == method and isinstance(inner.value.func.value, ast.Name) and inner.value.func.value.id == x
             and len(inner.value.args) == 1 and not inner.value.keywords):
       return None
     elt = inner.value.args[0]
     if any(isinstance(n, ast.Name) and n.id == x for e in [elt, loop.iter] + conds for n in ast.walk(e)):
       return None
+    if method == 'add':
+      if not conds and isinstance(elt, ast.Name) and isinstance(loop.target, ast.Name) and elt.id == loop.target.id:
+        comp = ast.Call(func=ast.Name(id='set', ctx=ast.Load()), args=[loop.iter], keywords=[])      # set(IT)
+      else:
+        comp = ast.SetComp(elt=elt, generators=[ast.comprehension(target=loop.target, iter=loop.iter, ifs=conds, is_async=0)])
+      return ast.Assign(targets=[ast.Name(id=x, ctx=ast.Store())], value=comp, lineno=init.lineno, col_offset=init.col_offset)
     comp = ast.ListComp(elt=elt, generators=[ast.comprehension(target=loop.target, iter=loop.iter, ifs=conds, is_async=0)])
     return ast.Assign(targets=[ast.Name(id=x, ctx=ast.Store())], value=comp, lineno=init.lineno, col_offset=init.col_offset)
 
@@ -334,6 +348,29 @@ def unroll_literal_loops(f, only_data_driven=False):
           setattr(st, fld, block(getattr(st, fld)))
       if not only_data_driven:
         splat_stmt(st)
+      # T1, T2, T3 = [E(v) for v in TABLE]  ->  T1 = E(a); T2 = E(b); T3 = E(c)
+      if isinstance(st, ast.Assign) and len(st.targets) == 1 and isinstance(st.targets[0], (ast.Tuple, ast.List)) \
+          and all(isinstance(t_, ast.Name) for t_ in st.targets[0].elts):
+        v_ = st.value
+        if isinstance(v_, ast.Call) and isinstance(v_.func, ast.Name) and v_.func.id in ('list', 'tuple') and len(v_.args) == 1 and not v_.keywords \
+            and isinstance(v_.args[0], (ast.GeneratorExp, ast.ListComp)):
+          v_ = v_.args[0]
+        if isinstance(v_, (ast.ListComp, ast.GeneratorExp)) and len(v_.generators) == 1 and not v_.generators[0].ifs and not v_.generators[0].is_async:
+          gen_ = v_.generators[0]
+          lit_ = literal_of(gen_.iter)
+          tnames = [t_.id for t_ in st.targets[0].elts]
+          if lit_ is not None and len(lit_.elts) == len(tnames) and len(set(tnames)) == len(tnames) \
+              and not ({x.id for x in ast.walk(v_.elt) if isinstance(x, ast.Name)} & set(tnames)):
+            binds_ = [bind(gen_.target, e_) for e_ in lit_.elts]
+            if all(b_ is not None for b_ in binds_):
+              for tn, b_ in zip(tnames, binds_):
+                def sub_(e, b=b_):
+                  if isinstance(e, ast.Name) and isinstance(e.ctx, ast.Load) and e.id in b:
+                    return dataflow.clone(b[e.id])
+                  return dataflow._map_children(e, sub_)
+                out.append(ast.copy_location(ast.Assign(targets=[ast.Name(id=tn, ctx=ast.Store())], value=sub_(dataflow.clone(v_.elt)), lineno=st.lineno), st))
+              changed[0] = True
+              continue
       lit = literal_of(st.iter) if isinstance(st, ast.For) and not st.orelse and (not only_data_driven or _data_driven(st)) else None
       # (a `return` or `yield` in the body is as good in the unrolled copies; only break/continue refer to the loop itself)
       if lit is not None and len(lit.elts) <= 32 and not any(isinstance(x, (ast.Break, ast.Continue)) for b_ in st.body for x in ast.walk(b_)):
@@ -722,7 +759,8 @@ def lower_repo(repo):
     if c6:
       c4 = constant_setattr(f) or c4        # aliases of bound methods / operator functions are visible only now
     c7 = split_parallel_assignments(f)
-    c1 = c1 or c5 or bool(c6) or c7
+    c8 = clamp_forms(f)
+    c1 = c1 or c5 or bool(c6) or c7 or c8
     if c1 or c2 or c3 or c4:
       done.append('%s: %s' % (q, ' + '.join(x for x, y in (('iteration forms', c1), ('conditional assignments', c2), ('attribute-table loops unrolled', c3),
                                                             ('constant setattr/getattr', c4)) if y)))
@@ -839,6 +877,43 @@ def conditional_assignments(f):
         out.append(ast.If(test=ast.copy_location(t_, st.value), body=[a], orelse=[], lineno=st.lineno, col_offset=st.col_offset))
         changed[0] = True
         continue
+      # return F(a if c else b, k=(x if c else y))  ->  if c: return F(a, k=x)  else: return F(b, k=y)
+      # (every conditional expression of the statement has the same, side-effect free test)
+      if isinstance(st, (ast.Return, ast.Assign)) and st.value is not None and not isinstance(st.value, ast.IfExp):
+        ifx = []
+        def find_(e, top=True):
+          if isinstance(e, (ast.Lambda, ast.ListComp, ast.SetComp, ast.DictComp, ast.GeneratorExp)):
+            return
+          if isinstance(e, ast.IfExp):
+            ifx.append(e)
+            return
+          for ch in ast.iter_child_nodes(e):
+            find_(ch, False)
+        find_(st.value)
+        pure_ = lambda t_: all(isinstance(x_, (ast.Name, ast.Constant, ast.Compare, ast.Is, ast.IsNot, ast.Eq, ast.NotEq, ast.Load, ast.UnaryOp, ast.Not, ast.Attribute))
+                               for x_ in ast.walk(t_)) and not any(isinstance(x_, ast.Attribute) for x_ in ast.walk(t_))
+        # (BoolOp operands are evaluated conditionally: a conditional expression under one is left alone)
+        under_boolop = any(isinstance(b_, ast.BoolOp) and any(x_ is i_ for x_ in ast.walk(b_)) for b_ in ast.walk(st.value) for i_ in ifx)
+        if ifx and len({norm(i_.test) for i_ in ifx}) == 1 and pure_(ifx[0].test) and not under_boolop \
+            and not (isinstance(st, ast.Assign) and any(isinstance(x_, ast.Name) and x_.id in {y_.id for y_ in ast.walk(ifx[0].test) if isinstance(y_, ast.Name)}
+                                                         for t_ in st.targets for x_ in ast.walk(t_))):
+          ids_ = {id(i_) for i_ in ifx}
+          def pick_(e, which):
+            if id(e) in ids_:
+              return dataflow.clone(getattr(e, which))
+            e2 = e.__class__(**{fld: (pick_(val, which) if isinstance(val, ast.AST) else
+                                      [pick_(v_, which) if isinstance(v_, ast.AST) else v_ for v_ in val] if isinstance(val, list) else val)
+                                for fld, val in ast.iter_fields(e)})
+            return ast.copy_location(e2, e) if hasattr(e, 'lineno') else e2
+          def mk_(which):
+            if isinstance(st, ast.Return):
+              return ast.Return(value=pick_(st.value, which), lineno=st.lineno, col_offset=st.col_offset)
+            return ast.Assign(targets=[dataflow.clone(t_) for t_ in st.targets], value=pick_(st.value, which), lineno=st.lineno, col_offset=st.col_offset)
+          new_if = ast.If(test=dataflow.clone(ifx[0].test), body=[mk_('body')], orelse=[mk_('orelse')], lineno=st.lineno, col_offset=st.col_offset)
+          ast.fix_missing_locations(new_if)
+          out.append(new_if)
+          changed[0] = True
+          continue
       if isinstance(st, ast.Assign) and len(st.targets) == 1 and isinstance(st.value, ast.IfExp) \
           and isinstance(st.targets[0], (ast.Name, ast.Attribute, ast.Tuple)):
         a = ast.Assign(targets=[dataflow.clone(st.targets[0])], value=st.value.body, lineno=st.lineno, col_offset=st.col_offset)
@@ -848,6 +923,79 @@ def conditional_assignments(f):
         continue
       out.append(st)
     return out
+  node.body = block(node.body)
+  if changed[0]:
+    ast.fix_missing_locations(node)
+    for n in ast.walk(node):
+      for ch in ast.iter_child_nodes(n):
+        ch._parent = n
+  return changed[0]
+
+
+def clamp_forms(f):
+  """if B > v: v = B  /  if v < B: v = B  /  if not v > B: v = B   ->   v = max(v, B)  (resp. max(B, v));
+     if B < v: v = B  /  if v > B: v = B  /  if not v < B: v = B   ->   v = min(v, B)  (resp. min(B, v)).
+  The two-argument builtin written as its single comparison (Python's max(a, b) is `b if b > a else a`, min(a, b) is
+  `b if b < a else a`).  v a plain local, B a name, attribute chain, subscript or constant."""
+  node = f.node
+  changed = [False]
+
+  def pure(e):
+    return all(isinstance(x, (ast.Name, ast.Attribute, ast.Subscript, ast.Constant, ast.Load, ast.UnaryOp, ast.USub)) for x in ast.walk(e))
+
+  def rewrite(st):
+    if not (isinstance(st, ast.If) and not st.orelse and len(st.body) == 1 and isinstance(st.body[0], ast.Assign) and len(st.body[0].targets) == 1
+            and isinstance(st.body[0].targets[0], ast.Name)):
+      return None
+    v = st.body[0].targets[0].id
+    B = st.body[0].value
+    if not pure(B) or any(isinstance(x, ast.Name) and x.id == v for x in ast.walk(B)):
+      return None
+    t, neg = st.test, False
+    if isinstance(t, ast.UnaryOp) and isinstance(t.op, ast.Not):
+      t, neg = t.operand, True
+    if not (isinstance(t, ast.Compare) and len(t.ops) == 1 and isinstance(t.ops[0], (ast.Lt, ast.Gt))):
+      return None
+    l, r, op = t.left, t.comparators[0], type(t.ops[0])
+    bt = norm(B)
+    is_v = lambda e: isinstance(e, ast.Name) and e.id == v
+    fn = order = None
+    if not neg:
+      if norm(l) == bt and is_v(r):                  # B > v -> max(v, B);  B < v -> min(v, B)
+        fn, order = ('max' if op is ast.Gt else 'min'), 'vB'
+      elif is_v(l) and norm(r) == bt:                # v < B -> max(v, B);  v > B -> min(v, B)
+        fn, order = ('max' if op is ast.Lt else 'min'), 'vB'
+    else:
+      if is_v(l) and norm(r) == bt:                  # not v > B -> max(B, v);  not v < B -> min(B, v)
+        fn, order = ('max' if op is ast.Gt else 'min'), 'Bv'
+    if fn is None:
+      return None
+    vn = ast.Name(id=v, ctx=ast.Load())
+    args = [vn, dataflow.clone(B)] if order == 'vB' else [dataflow.clone(B), vn]
+    return ast.copy_location(ast.Assign(targets=[ast.Name(id=v, ctx=ast.Store())], value=ast.Call(func=ast.Name(id=fn, ctx=ast.Load()), args=args, keywords=[]),
+                                        lineno=st.lineno), st)
+
+  def block(stmts):
+    out = []
+    for st in stmts:
+      if isinstance(st, (ast.FunctionDef, ast.ClassDef, ast.AsyncFunctionDef)):
+        out.append(st)
+        continue
+      for fld in ('body', 'orelse', 'finalbody'):
+        if hasattr(st, fld) and isinstance(getattr(st, fld), list):
+          setattr(st, fld, block(getattr(st, fld)))
+      if isinstance(st, ast.Try):
+        for hd in st.handlers:
+          hd.body = block(hd.body)
+      new = rewrite(st)
+      if new is not None:
+        out.append(new)
+        changed[0] = True
+        continue
+      out.append(st)
+    return out
+  if any(isinstance(x, ast.Name) and x.id in ('max', 'min') and isinstance(x.ctx, ast.Store) for x in ast.walk(node)):
+    return False
   node.body = block(node.body)
   if changed[0]:
     ast.fix_missing_locations(node)
@@ -869,6 +1017,8 @@ def thread_result_tests(f):
   decided where the assigned value makes it decidable (constants; a constructor call is not None)."""
   node = f.node
   changed = [False]
+  local_stores = {x.id for x in ast.walk(node) if isinstance(x, ast.Name) and isinstance(x.ctx, ast.Store)} \
+      | {a.arg for a in node.args.posonlyargs + node.args.args + node.args.kwonlyargs}
 
   def leaves(stmts):
     """[(list, index)] of the final assignments of every path, or None when some path falls through differently."""
@@ -903,8 +1053,12 @@ def thread_result_tests(f):
           isnone = val.value is None
         elif isinstance(val, ast.Call) and (norm_name(val.func)[:1].isupper()):
           isnone = False
-        elif isinstance(val, (ast.Tuple, ast.List, ast.Dict, ast.Set)):
+        elif isinstance(val, (ast.Tuple, ast.List, ast.Dict, ast.Set, ast.ListComp, ast.SetComp, ast.DictComp, ast.GeneratorExp, ast.JoinedStr, ast.Lambda)):
           isnone = False
+        elif isinstance(val, ast.Name) and val.id in getattr(f.module, 'assigns', {}) and val.id not in local_stores \
+            and isinstance(f.module.assigns[val.id], (ast.Tuple, ast.List, ast.Dict, ast.Set, ast.Constant)) \
+            and not (isinstance(f.module.assigns[val.id], ast.Constant) and f.module.assigns[val.id].value is None):
+          isnone = False          # a module-level literal table
         else:
           return None
         return isnone if isinstance(op, ast.Is) else not isnone
@@ -929,6 +1083,15 @@ def thread_result_tests(f):
         if isinstance(st, ast.Try):
           for hd in st.handlers:
             block(hd.body)
+      # v = <constant>; if <test of v>: ...   (left behind where a result was threaded into a branch): decide the test
+      if isinstance(st, ast.Assign) and len(st.targets) == 1 and isinstance(st.targets[0], ast.Name) and isinstance(st.value, ast.Constant) \
+          and i + 1 < len(stmts) and isinstance(stmts[i + 1], ast.If) and names_in(stmts[i + 1].test) == {st.targets[0].id}:
+        v = decide(stmts[i + 1].test, {st.targets[0].id: st.value})
+        if v is not None:
+          nxt = stmts[i + 1]
+          stmts[i + 1:i + 2] = list(nxt.body if v else nxt.orelse)
+          changed[0] = True
+          continue
       if isinstance(st, ast.If) and st.orelse:
         lv = leaves([st])
         if lv:
